@@ -198,6 +198,7 @@ type splitCase struct {
 	assume  []string         // extra assumptions (spec text)
 	noPrune bool
 	vals    map[string]int64 // scalar parameter fixed to a value
+	nils    map[string]bool  // pointer parameter is nil in this variant
 }
 
 var splitValRe = regexp.MustCompile(`^value\s+(\w+)\s+in\s+(\d+)\.\.(\d+)$`)
@@ -208,6 +209,31 @@ func (e *Engine) splitCases(c *Contract) []splitCase {
 	cases := []splitCase{{lens: map[string]int64{}}}
 	for _, sp := range c.Splits {
 		if strings.HasPrefix(sp.Text, "case ") {
+			continue
+		}
+		if strings.HasPrefix(sp.Text, "nil ") {
+			// two variants: the pointer parameter is nil / is not nil
+			name := strings.TrimSpace(strings.TrimPrefix(sp.Text, "nil "))
+			var next []splitCase
+			for _, base := range cases {
+				for _, isNil := range []bool{false, true} {
+					nc := splitCase{label: base.label, lens: base.lens, assume: base.assume, noPrune: base.noPrune, vals: base.vals, nils: map[string]bool{}}
+					for k, v := range base.nils {
+						nc.nils[k] = v
+					}
+					nc.nils[name] = isNil
+					if nc.label != "" {
+						nc.label += ","
+					}
+					if isNil {
+						nc.label += name + "=nil"
+					} else {
+						nc.label += name + "!=nil"
+					}
+					next = append(next, nc)
+				}
+			}
+			cases = next
 			continue
 		}
 		if strings.HasPrefix(sp.Text, "cond ") {
@@ -461,6 +487,20 @@ func (e *Engine) verifyVariant(fn *ssa.Function, c *Contract, plan aliasPlan, sc
 			args[i] = e.makeParamValue(st, p.Name(), p.Type(), fl, 0)
 			if v, ok := sc.vals[p.Name()]; ok {
 				args[i] = mkInt64(v)
+			}
+			if sc.nils[p.Name()] {
+				switch underlying(p.Type()).(type) {
+				case *types.Pointer:
+					args[i] = &PtrVal{null: true, typ: p.Type()}
+				case *types.Interface:
+					args[i] = &IfaceVal{null: tTrue}
+				case *types.Slice:
+					args[i] = e.zeroValue(p.Type())
+				}
+			} else if _, has := sc.nils[p.Name()]; has {
+				if iv, ok := args[i].(*IfaceVal); ok {
+					iv.null = tFalse
+				}
 			}
 			if t, ok := args[i].(*Term); ok && t.Op == "var" && t.Sort == SInt {
 				for _, r := range c.Requires {
